@@ -22,7 +22,7 @@ def gen(rng, tier):
     periods = [(360.0, 0.0), (360.0, 180.0), (2.0, 0.0), (6.5, -1.25), (1.0, 0.5), (0.75, 10.0)]
     for k in range(n):
         lines = ["m.new 2"]
-        kind = rng.choice(["s", "p", "p", "pe", "w", "we", "v3", "vec", "u", "q", "qs", "is", "iv", "iu", "iq"])
+        kind = rng.choice(["s", "p", "p", "pe", "w", "we", "v3", "vec", "u", "ue", "q", "qs", "qe", "is", "iv", "iu", "iq"])
         meta = {"kind": kind}
         nt = True
         if kind == "s":
@@ -53,6 +53,16 @@ def gen(rng, tier):
             a, b = unit(rng, 3), unit(rng, 3)
             lines.append("v.dist2 u %s %s" % (" ".join(map(fbits, a)), " ".join(map(fbits, b))))
             lines.append("v.dist2 u %s %s" % (" ".join(map(fbits, b)), " ".join(map(fbits, a))))
+        elif kind == "ue":
+            # equivalent values: the same unit vector twice (axis-aligned ones included)
+            a = unit(rng, 3) if rng.rand() < 0.7 else rng.choice([[1.0, 0.0, 0.0], [0.0, -1.0, 0.0], [0.0, 0.0, 1.0], [0.6, 0.8, 0.0]])
+            lines.append("v.dist2 u %s %s" % (" ".join(map(fbits, a)), " ".join(map(fbits, a))))
+            meta["equiv"] = {"a": a}
+        elif kind == "qe":
+            a = unit(rng, 4) if rng.rand() < 0.7 else rng.choice([[1.0, 0.0, 0.0, 0.0], [0.0, 0.6, 0.0, 0.8], [0.5, 0.5, 0.5, 0.5]])
+            b = a if rng.rand() < 0.5 else [-x for x in a]
+            lines.append("v.dist2 q %s %s" % (" ".join(map(fbits, a)), " ".join(map(fbits, b))))
+            meta["equiv"] = {"a": a}
         elif kind in ("q", "qs"):
             a, b = unit(rng, 4), unit(rng, 4)
             lines.append("v.dist2 q %s %s" % (" ".join(map(fbits, a)), " ".join(map(fbits, b))))
@@ -77,7 +87,7 @@ def gen(rng, tier):
         # finite-difference probes of the first distance op (oracle: reported gradient = true derivative)
         t = lines[1].split()
         h = 1e-5
-        if t[0] == "v.dist2" and kind != "pe":
+        if t[0] == "v.dist2" and kind not in ("pe", "ue", "qe"):
             ty = t[1]
             if ty in ("s", "p"):
                 off = 2 if ty == "s" else 4
@@ -129,8 +139,8 @@ def oracle(case, out):
             d2 = fl(out, idx, "d2")
             if d2 is None or not isinstance(d2[0], float):
                 viol.append("no distance returned for: " + line[:60]); continue
-            if d2[0] < 0:
-                viol.append("negative squared distance %r" % d2[0])
+            if not (d2[0] >= 0):
+                viol.append("squared distance %r is not a non-negative number (%s)" % (d2[0], line[:14]))
         if t[0] == "v.wrap":
             P, c, x = (bits_to_f(s) for s in t[1:4])
             w = fl(out, idx, "w")
@@ -159,6 +169,18 @@ def oracle(case, out):
                 tgt = a if l == 0.0 else b
                 if any(abs(x - y) > 1e-9 for x, y in zip(ip, tgt)):
                     viol.append("interpolation at lambda=%r does not reach the end point" % l)
+    eq = case["meta"].get("equiv")
+    if eq:
+        d0 = fl(out, 2, "d2"); g = fl(out, 2, "g")
+        if d0 is not None and isinstance(d0[0], float) and d0[0] == d0[0] and abs(d0[0]) > 1e-12:
+            viol.append("squared distance between equivalent values is %r, not zero" % d0[0])
+        if g is None or not all(isinstance(x, float) and x == x and abs(x) != float("inf") for x in g):
+            viol.append("gradient of the squared distance at equivalent values is not finite: %r (its tangential part must be the true derivative, 0)" % (g,))
+        else:
+            a = eq["a"]; d = sum(x * y for x, y in zip(g, a))
+            tang = [x - d * y for x, y in zip(g, a)]
+            if max(abs(x) for x in tang) > 1e-6:
+                viol.append("tangential gradient of the squared distance at equivalent values is %r, the true derivative is 0" % (tang,))
     fd = case["meta"].get("fd")
     if fd:
         dp = fl(out, fd["plus"], "d2"); dm = fl(out, fd["minus"], "d2"); g = fl(out, 2, "g"); d0 = fl(out, 2, "d2")
